@@ -11,8 +11,17 @@
 
 namespace yaclib::detail {
 
-constexpr std::cv_status CVStatusFrom(WaitStatus);
-constexpr std::cv_status CVStatusFrom(std::cv_status);
+// defined here: constexpr functions are implicitly inline, a definition in a .cpp is invisible to other TUs
+constexpr std::cv_status CVStatusFrom(WaitStatus status) {
+  if (status == WaitStatus::Ready) {
+    return std::cv_status::no_timeout;
+  }
+  return std::cv_status::timeout;
+}
+
+constexpr std::cv_status CVStatusFrom(std::cv_status status) {
+  return status;
+}
 
 // TODO(myannyax) unite with ConditionVariableAny
 
